@@ -97,10 +97,10 @@ def run(ctx):
                     if not originates_in_library(e):
                         raise
                     ctx.observe("whole-read-raised(C02's business):%s" % type(e).__name__, {"cfg": cfg, "data": fc["data"].decode("latin1")})
-                    continue
-                if len(whole) != n_rec:
+                    whole = None            # nothing to compare the chunks with; a chunked read that raises with a sufficient chunk size is still judged below
+                if whole is not None and len(whole) != n_rec:
                     ctx.observe("whole-read-count-differs-from-model(C02's business)", {"cfg": cfg, "data": fc["data"].decode("latin1"), "got": len(whole), "model": n_rec})
-                for k in [k_ for k_ in ks if k_ >= max_entry][:3] + [k_ for k_ in ks if k_ >= max_entry][-1:]:
+                for k in ([k_ for k_ in ks if k_ >= max_entry][:3] + [k_ for k_ in ks if k_ >= max_entry][-1:]) if whole is not None else []:
                     # one chunk with read_chunk, the rest of the file with read(): together the entries of the file
                     try:
                         rd = open_reader(ctx, fc, path, gz_path, entry, lazy)
@@ -124,11 +124,19 @@ def run(ctx):
                         sizes = []
                         rows = []
                         held = []
-                        for chunk in rd.read_chunks(min_chunk_size=k):
-                            part = tables.rows_of(chunk, fields)
-                            sizes.append(len(part))
-                            rows.extend(part)
-                            held.append(chunk)
+                        stream_ = rd.read_chunks(min_chunk_size=k)
+                        leave_after = (k % 4) if k % 5 == 0 else None          # some loops over the stream are left early with `break` and taken up again
+                        for rounds_ in range(3 if leave_after is not None else 1):
+                            taken_ = 0
+                            for chunk in stream_:
+                                part = tables.rows_of(chunk, fields)
+                                sizes.append(len(part))
+                                rows.extend(part)
+                                held.append(chunk)
+                                taken_ += 1
+                                if leave_after is not None and rounds_ == 0 and taken_ > leave_after:
+                                    ctx.count("chunk_loops_left_early_and_resumed")
+                                    break
                         nb, nl = rd._reader.n_bytes_read, rd._reader.n_lines_read
                         rd.close()
                     except Exception as e:
@@ -171,6 +179,8 @@ def run(ctx):
                                           {"cfg": cfg, "k": k, "data": fc["data"].decode("latin1"), "chunk_sizes": sizes, "joined": joined if isinstance(joined, str) else joined[:8], "rows": rows[:8]})
                     ctx.count("reads_completed")
                     nontriv = (fc["data"], cfg, k) if n_rec >= 2 else None
+                    if whole is None:
+                        continue
                     if rows != whole:
                         kind = classify(rows, whole, fc)
                         ctx.judged("chunked==whole", nontriv)
